@@ -19,6 +19,7 @@
 
 #include <cstddef>
 #include <cstdint>
+#include <type_traits>
 
 #include <nop/base/encoding.h>
 #include <nop/base/utility.h>
@@ -101,6 +102,21 @@ class ConstexprBufferWriter {
   }
   constexpr void WriteElement(char value, std::size_t offset) {
     WriteElement(static_cast<std::uint8_t>(value), offset);
+  }
+  constexpr void WriteElement(bool value, std::size_t offset) {
+    WriteElement(static_cast<std::uint8_t>(value), offset);
+  }
+  constexpr void WriteElement(char16_t value, std::size_t offset) {
+    WriteElement(static_cast<std::uint16_t>(value), offset);
+  }
+  constexpr void WriteElement(char32_t value, std::size_t offset) {
+    WriteElement(static_cast<std::uint32_t>(value), offset);
+  }
+  constexpr void WriteElement(wchar_t value, std::size_t offset) {
+    using Integer = std::conditional_t<sizeof(wchar_t) == sizeof(std::uint16_t),
+                                       std::uint16_t, std::uint32_t>;
+    static_assert(sizeof(wchar_t) == sizeof(Integer), "Unsupported wchar_t!");
+    WriteElement(static_cast<Integer>(value), offset);
   }
   constexpr void WriteElement(std::uint16_t value, std::size_t offset) {
     buffer_[index_ + offset + 0] = value >> 0;
